@@ -125,6 +125,13 @@ pub fn judge_with_at(c: &Case, x: &Vec<u8>, st: &mut Stats, deep: bool) -> Verdi
             return Err(Fail::new("counts-through-auto-detection", shape2(x), "HeaderResult::parse", format!("V2(Err({:?}))", want), format!("V1(Err({:?}))", e1)));
         }
     }
+    // ... nor by a success of either version: the buffer is a truncated v2 header and nothing else
+    if let (Ok(a), V2Ref::Incomplete(_) | V2Ref::Partial(..)) = (&through_auto, &want) {
+        let valid_so_far = x.len() <= 12 || ((x[12] == 0x20 || x[12] == 0x21) && (x.len() < 14 || valid_afp(x[13])));
+        if valid_so_far && matches!(a, ppp::HeaderResult::V1(Ok(_)) | ppp::HeaderResult::V2(Ok(_))) {
+            return Err(Fail::new("counts-through-auto-detection", shape2(x), "HeaderResult::parse", format!("V2(Err({:?}))", want), crate::imp::short(&format!("{:?}", a))));
+        }
+    }
     if let Ok(ppp::HeaderResult::V2(Err(e))) = through_auto {
         let exact = match (&e, &want) {
             (E2::Incomplete(n), V2Ref::Incomplete(m)) => n == m,
